@@ -196,7 +196,12 @@ def task(spec):
     sim.close()
     for k in range(0, n + 1):
         if k not in files:
-            V("restart-file-not-written", f"no restart file captured at step {k}")
+            # the statement speaks of the steps at which the observer wrote (its cadence is C15's
+            # subject); only an observer that never writes at all makes the check vacuous
+            if not files:
+                V("restart-file-never-written", f"the restart observer wrote nothing during {n} steps")
+                break
+            counters["steps_without_restart_file"] = counters.get("steps_without_restart_file", 0) + 1
             continue
         counters["restarts"] += 1
         try:
